@@ -5,8 +5,14 @@ import json, subprocess, sys
 
 CLAIMED = {
  # id: (engine kind, what is enumerated, technique)
+ "C06": ("E2 product (complete over the grid)",
+         "every ordered pair of a boundary grid of 64-bit integers (all +-2^k, +-(2^k+-1), sqrt(2^63) neighbours, extremes; 105 values quick / ~700 thorough) x {+ - * / %} x 6 forms (expression, op-assign on variable / element / property in two spellings, x = x op y), 6 comparisons, the division identity, every `_` placement (<=2) in every non-negative grid literal with and without `-`, too-large literals in 7 contexts, ranges a .. a+d; oracle = i128 arithmetic and the diagnostic clause of the statement",
+         "exhaustive enumeration of a finite product space on the real interpreter against exact (i128) arithmetic"),
+ "C11": ("E2 product (complete)",
+         "all lists of length 0..4 (quick) / 0..7 (thorough) and strings of length 0..5 / 0..7 plus multi-byte strings x every index in [-2,len+2] x every bound pair in ([-2,len+2] + omitted)^2 x element assignment x range assignment from lists, strings (ASCII and multi-byte) and the list itself of every length 0..len+1 x all concatenation length pairs x non-integer index kinds; oracle = slice model written from the statement (definedness domain + value) and the laws s[:k]+s[k:]==s, (s+t)[len(s)+i]==t[i] evaluated by the subject",
+         "exhaustive enumeration of all sequences/indices/bounds up to a length bound on the real interpreter against a sequence model"),
  "C16": ("E2 product (complete, finite)",
-         "the complete operator x kind x kind matrix (15 binary operators + `..`, 8x8 operand kinds, two spellings), 5 op-assign operators x 4 target forms x 8x8, 38 typed contexts x 8 kinds; every cell executed on the real interpreter and judged against the table written out from the property statement, cross-checked with the reference model",
+         "the complete operator x operand matrix over 13 representative values of the 8 kinds (15 binary operators + `..`, 13x13 operands, two spellings), 5 op-assign operators x 4 target forms x 13x13, 45 typed contexts x 13 values; every cell executed on the real interpreter and judged against the table written out from the property statement, cross-checked with the reference model",
          "exhaustive enumeration of a finite product space on the real interpreter against a reference table"),
 }
 
